@@ -143,8 +143,7 @@ def h_spin_v2_raw(env, n=1, nctrl=2):
     if env.sym:
         from ..llsym import bridge
         from ..llsym.interp import Interp, Obj, Ptr
-        m = bridge.module(CFILE)
-        it = Interp(m)
+        it = bridge.new_interp(CFILE)
         mk = lambda nm, a: Ptr(Obj(nm, bridge._Flat(a), 8), 0)
         it.call("evaluate_se_kernel_spin_v2", [mk("out", out), mk("outd", outd), mk("xin", X.copy()), mk("xctrl", Xc.copy()), mk("actrl", al.copy()), mk("exps", ex.copy()), n, nctrl, nf])
         STATS["instructions"] = STATS.get("instructions", 0) + it.steps
